@@ -169,6 +169,11 @@ impl AsyncFileSystem for AsyncMemoryFS {
         let prefix = format!("{}/", path);
         let handle = self.handle.read().await;
         let mut found_directory = false;
+        if let Some(file) = handle.files.get(path) {
+            if file.file_type != VfsFileType::Directory {
+                return Err(VfsErrorKind::Other("Not a directory".into()).into());
+            }
+        }
         #[allow(clippy::needless_collect)] // need collect to satisfy lifetime requirements
         let entries: Vec<String> = handle
             .files
